@@ -344,10 +344,10 @@ theorem endOf_equi (x h : ℚ) (c : List Slice) (hE : Equi x h c) : endOf x c = 
 /-- what `set_grid` has checked for every slice -/
 def SliceHyp (s : Slice) : Prop := s.maxLevel + 1 = s.seq.length ∧ s.xl < s.xr
 
-/-- a default container (or any container with a single slice) integrates affine functions exactly over the
-    interval it covers -/
+/-- a container (default or Simpson, any power-of-two size) integrates affine functions exactly over the interval it
+    covers -/
 theorem container_wsum (sv : SliceVer) (cv : ContVer) (c : List Slice) (x α β : ℚ) (hg : Good c)
-    (hcv : cv = .default ∨ c.length = 1) (hch : SChain x c) (hs : ∀ s ∈ c, SliceHyp s)
+    (hch : SChain x c) (hs : ∀ s ∈ c, SliceHyp s)
     (cs : List (ℚ × ℚ)) (hc : containerContribs sv cv c = some cs) :
     wsum (fun y => α * y + β) cs = prim α β (endOf x c) - prim α β x := by
   obtain ⟨hne, ⟨k, hk⟩, hw⟩ := hg
@@ -361,11 +361,6 @@ theorem container_wsum (sv : SliceVer) (cv : ContVer) (c : List Slice) (x α β 
       simp only [endOf]
       rw [hch.1]
     | cons s' r' =>
-      have hcv' : cv = .default := by
-        rcases hcv with h | h
-        · exact h
-        · simp at h
-      subst hcv'
       cases k with
       | zero => simp at hk
       | succ k' =>
@@ -375,12 +370,16 @@ theorem container_wsum (sv : SliceVer) (cv : ContVer) (c : List Slice) (x α β 
         have hpos : 0 < h := by
           have := (hs s List.mem_cons_self).2
           simp only [hh, Slice.width]; linarith
-        rw [containerContribs_wsum sv .default s s' r' k' x h α β hk hE cs hc]
+        rw [containerContribs_wsum sv cv s s' r' k' x h α β hk hE cs hc]
         have hab : x ≠ x + 2 ^ (k' + 1) * h := by
           have : (0 : ℚ) < 2 ^ (k' + 1) * h := mul_pos (pow_pos (by norm_num) _) hpos
           linarith
-        have ht := default_total x (x + 2 ^ (k' + 1) * h) (k' + 1) hab
-        simp only [bwOf, iwOf]
+        have ht : 2 * bwOf cv x (x + 2 ^ (k' + 1) * h) (k' + 1)
+            + levelSum (fun l => iwOf cv x (x + 2 ^ (k' + 1) * h) (k' + 1) l) (k' + 1) 1
+            = x + 2 ^ (k' + 1) * h - x := by
+          cases cv
+          · exact default_total x (x + 2 ^ (k' + 1) * h) (k' + 1) hab
+          · exact simpson_total x (x + 2 ^ (k' + 1) * h) k' hab
         rw [ht, endOf_equi x h _ hE, hk]
         simp only [prim]
         push_cast
@@ -388,7 +387,7 @@ theorem container_wsum (sv : SliceVer) (cv : ContVer) (c : List Slice) (x α β 
 
 /-- concatenated containers along a chain integrate affine functions exactly over the union -/
 theorem allContribs_wsum (sv : SliceVer) (cv : ContVer) (conts : List (List Slice)) (x α β : ℚ)
-    (hg : ∀ c ∈ conts, Good c) (hcv : cv = .default ∨ ∀ c ∈ conts, c.length = 1)
+    (hg : ∀ c ∈ conts, Good c)
     (hch : SChain x conts.flatten) (hs : ∀ s ∈ conts.flatten, SliceHyp s)
     (cs : List (ℚ × ℚ)) (hc : allContribs sv cv conts = some cs) :
     wsum (fun y => α * y + β) cs = prim α β (endOf x conts.flatten) - prim α β x := by
@@ -407,17 +406,9 @@ theorem allContribs_wsum (sv : SliceVer) (cv : ContVer) (conts : List (List Slic
         subst hc
         rw [List.flatten_cons, schain_append] at hch
         rw [List.flatten_cons, endOf_append, wsum_append]
-        have hcv1 : cv = .default ∨ c.length = 1 := by
-          rcases hcv with h | h
-          · exact Or.inl h
-          · exact Or.inr (h c List.mem_cons_self)
-        have hcv2 : cv = .default ∨ ∀ c ∈ rest, c.length = 1 := by
-          rcases hcv with h | h
-          · exact Or.inl h
-          · exact Or.inr (fun c' hc' => h c' (List.mem_cons_of_mem _ hc'))
-        rw [container_wsum sv cv c x α β (hg c List.mem_cons_self) hcv1 hch.1
+        rw [container_wsum sv cv c x α β (hg c List.mem_cons_self) hch.1
             (fun s hs' => hs s (by simp [hs'])) c1 h1,
-          ih (endOf x c) (fun c' hc' => hg c' (List.mem_cons_of_mem _ hc')) hcv2 hch.2
+          ih (endOf x c) (fun c' hc' => hg c' (List.mem_cons_of_mem _ hc')) hch.2
             (fun s hs' => hs s (by rw [List.flatten_cons]; exact List.mem_append_right _ hs')) c2 h2]
         ring
 
@@ -616,10 +607,8 @@ theorem adjust_unit (g : Grouping) (cs : List (List Slice)) (h : ∀ c ∈ cs, c
     · exact ih (fun y hy => h y (List.mem_cons_of_mem _ hy)) x hx
 
 /-- **main lemma**: after a successful `set_grid`, the vector returned by `get_weights` has one entry per grid point
-    and integrates every affine function exactly -- for every grouping and slice version with default containers,
-    and for unit grouping with either container version -/
+    and integrates every affine function exactly -- for every grouping, slice version and container version -/
 theorem setGrid_weights (cfg : Cfg) (grid : List ℚ) (lv : List ℕ) (st : EG) (ws : List ℚ)
-    (hcv : cfg.contVer = .default ∨ cfg.grouping = .unit)
     (h1 : setGrid cfg grid lv = some st) (h2 : st.weights cfg = some ws) :
     ws.length = st.grid.length ∧ st.grid.Nodup ∧
       ∀ α β : ℚ, dot ws (st.grid.map (fun y => α * y + β)) = prim α β st.b - prim α β st.a := by
@@ -703,14 +692,6 @@ theorem setGrid_weights (cfg : Cfg) (grid : List ℚ) (lv : List ℕ) (st : EG) 
             obtain ⟨a1, a2⟩ := adjust_spec cfg.grouping _
               (groupRuns_runs (decide (cfg.grouping = Grouping.unit)) ss)
             rw [groupRuns_flatten] at a1
-            have hcv' : cfg.contVer = .default ∨
-                ∀ c ∈ adjust cfg.grouping (groupRuns (decide (cfg.grouping = Grouping.unit)) ss), c.length = 1 := by
-              rcases hcv with h | h
-              · exact Or.inl h
-              · right
-                have : decide (cfg.grouping = Grouping.unit) = true := by simp [h]
-                rw [this]
-                exact adjust_unit _ _ (groupRuns_unit ss)
             refine ⟨by simp [finalWeights], hnd, ?_⟩
             intro α β
             have hkeys : ∀ e ∈ cs, e.1 ∈ g := by
@@ -724,7 +705,7 @@ theorem setGrid_weights (cfg : Cfg) (grid : List ℚ) (lv : List ℕ) (st : EG) 
               · rw [h]; exact (p3 q hq).1
               · rw [h]; exact (p3 q hq).2
             rw [dot_finalWeights g cs _ hnd hkeys]
-            have := allContribs_wsum cfg.sliceVer cfg.contVer _ first.1 α β a2 hcv'
+            have := allContribs_wsum cfg.sliceVer cfg.contVer _ first.1 α β a2
               (by rw [a1]; exact c1) (by rw [a1]; exact hhyp) cs hall
             rw [this, a1, c2]
       · simp at h1
